@@ -375,9 +375,18 @@ func (t *ncTarget) setCandidate(source TargetSource) (*sdcpb.SetDataResponse, er
 	// commit the config
 	err = t.driver.Commit()
 	if err != nil {
+		log.Errorf("datastore %s failed commit: %v", t.name, err)
 		if strings.Contains(err.Error(), "EOF") {
 			t.Close()
 			go t.reconnect()
+			return nil, err
+		}
+		// the edit is still pending in the candidate, drop it so that it
+		// is not committed together with the next transaction
+		err2 := t.driver.Discard()
+		if err2 != nil {
+			// log failed discard
+			log.Errorf("failed with %v while discarding pending changes after error %v", err2, err)
 		}
 		return nil, err
 	}
